@@ -3,7 +3,24 @@ import json
 import subprocess
 from pathlib import Path
 
+import importlib
+import re
+
 from harness.manifest_data import CLAIMED, NOT_YET, PROPS
+
+# a property module may carry its own manifest entry: MANIFEST = dict(text=, note=, technique=, design_ref=)
+for _f in sorted(Path("/verif/harness/props").glob("c[0-9][0-9].py")):
+    _pid = _f.stem.upper()
+    _m = re.search(r"^MANIFEST\s*=", _f.read_text(), flags=re.M)
+    if _m and _pid not in CLAIMED:
+        _ns: dict = {}
+        _src = _f.read_text()
+        _start = _m.start()
+        # evaluate only the MANIFEST = dict(...) statement
+        import ast as _ast
+        for _node in _ast.parse(_src).body:
+            if isinstance(_node, _ast.Assign) and any(isinstance(t, _ast.Name) and t.id == "MANIFEST" for t in _node.targets):
+                CLAIMED[_pid] = eval(compile(_ast.Expression(_node.value), str(_f), "eval"), {"dict": dict})
 
 try:
     from harness.manifest_data import NOT_APPLICABLE
